@@ -95,8 +95,20 @@ def _structure(
         if sig in head_nodes:
             return head_nodes[sig]
         # Recurse
+        # The function given by name to dds.keep is recorded twice by the introspection: as the kept call, and right
+        # after it as a plain reference to the function's name. The second one is the same node, not another call.
+        sub_fis_list: List[FunctionInteractions] = []
+        for sub_fis in fis_.parsed_body:
+            if (
+                sub_fis_list
+                and sub_fis.store_path is None
+                and sub_fis_list[-1].store_path is not None
+                and sub_fis_list[-1].fun_path == sub_fis.fun_path
+            ):
+                continue
+            sub_fis_list.append(sub_fis)
         sub_calls: List[Tuple[List[Node], FunctionInteractions]] = [
-            (traverse(sub_fis), sub_fis) for sub_fis in fis_.parsed_body
+            (traverse(sub_fis), sub_fis) for sub_fis in sub_fis_list
         ]
         sub_nodes: List[Node] = sorted(
             list(
@@ -131,7 +143,8 @@ def _structure(
                             node_deps[k2] = set()
                         k = (k1, k2)
                         if (
-                            k not in deps
+                            n1.path != n2.path
+                            and k not in deps
                             and k2 not in node_deps[k1]
                             and k1 not in node_deps[k2]
                             and k1 not in sub_set
